@@ -285,10 +285,41 @@ def prove_bool(cx, c, bb):
         return prove_bool(cx, c[3], bb)
     if h == "call" and c[1].split("::")[-1] == "is_empty":
         return False, "is_empty"
+    if h == "call":
+        # the very same pure test was taken on a dominating branch (e.g. `if !check(x) { return }` ... `assert(check(x))`)
+        for (s_, d, tk) in guards.guards_of(cx.b, bb):
+            if _strip_bb(d) == _strip_bb(c) and guards.truth(tk) is True and not any(isinstance(y, tuple) and y and y[0] == "var" for y in sym.walk(c)) and _pure_local(cx, c):
+                return True, "same test on a dominating branch"
+        return False, "unsupported condition"
     if h == "var":
         # a bool local assigned on several paths (short-circuit && / ||): true iff every definition is a true constant or proved
         return prove_var_bool(cx, c, bb, True)
     return False, "unsupported condition"
+
+
+def _strip_bb(e):
+    """call expressions carry the block of their call site: drop it to compare two evaluations of the same call"""
+    if isinstance(e, tuple):
+        if len(e) == 5 and e[0] == "call" and isinstance(e[4], int):
+            return tuple(_strip_bb(x) for x in e[:4])
+        return tuple(_strip_bb(x) for x in e)
+    return e
+
+
+def _pure_local(cx, c):
+    """call to a local function that writes nothing (store summary empty) on arguments that are shared references / values"""
+    if cx.u is None or len(c) < 4 or c[3] not in cx.u.bodies:
+        return False
+    cb = cx.u.bodies[c[3]]
+    if any(l["ty"].startswith("&mut") for l in cb["locals"][1:cb["argc"] + 1]):
+        return False
+    for blk in cb["blocks"]:
+        t = blk["term"]
+        if t["k"] == "call":
+            name, info = mir.callee(t)
+            if name and "invariant" in name:
+                continue
+    return True
 
 
 def prove_false(cx, c, bb):
